@@ -282,6 +282,7 @@ func runC11(c *Ctx) {
 	c11Reconnecting(c)
 	c11LateAcks(c)
 	c11PingPending(c)
+	c11RetryPingCancel(c)
 	if last != nil {
 		c.Sample(map[string]any{"wire": last.TraceStrings()})
 	}
@@ -596,6 +597,58 @@ func c11LateAcks(c *Ctx) {
 // c11PingPending: a Ping issued through the retrying / reconnecting client is outstanding on a
 // silent link; other calls on the same client must still return (when their own context ends at
 // the latest).
+// c11RetryPingCancel: a Ping through the retrying client with a (long) ResponseTimeout configured
+// still follows its caller's context.
+func c11RetryPingCancel(c *Ctx) {
+	c.Bound("rc-ping-cancel", "ReconnectClient over RetryClient{ResponseTimeout: 30 s}: Ping on a link whose broker never answers PINGREQ, given up by cancellation at 1 s / by a 1 s deadline; it must have returned by 3 s with the context's error; P<=1")
+	for _, how := range []string{"cancel", "deadline"} {
+		how := how
+		var net *env.Net
+		sc := &vrt.Scenario{
+			Name:  "C11/rc-ping-cancel/response-timeout-30s/" + how,
+			Bound: vrt.Budget{P: 1},
+			Cfg:   vrt.Config{Horizon: int64(120 * time.Second)},
+			Body: func() {
+				net = env.NewNet()
+				b := env.NewBroker(net)
+				dialer := mqtt.DialerFunc(func(ctx vctx.Context) (*mqtt.BaseClient, error) {
+					conn := net.NewConn(c11Peer{b: b, mode: "no-pingresp"})
+					return &mqtt.BaseClient{Transport: conn}, nil
+				})
+				rc, _ := mqtt.NewReconnectClient(dialer, mqtt.WithReconnectWait(time.Second, 4*time.Second), mqtt.WithRetryClient(&mqtt.RetryClient{ResponseTimeout: 30 * time.Second}))
+				bg := vctx.Background()
+				if _, err := rc.Connect(bg, "c11"); err != nil {
+					vrt.Failf("harness", "connect: %v", err)
+					return
+				}
+				var pctx vctx.Context
+				var pcancel func()
+				if how == "deadline" {
+					pctx, pcancel = vctx.WithTimeout(bg, time.Second)
+				} else {
+					pctx, pcancel = vctx.WithCancel(bg)
+				}
+				pingRet := false
+				var perr error
+				vrt.Go("rc-ping", func() { perr = rc.Ping(pctx); pingRet = true })
+				vrt.Sleep(int64(time.Second))
+				pcancel()
+				vrt.Sleep(int64(2 * time.Second))
+				vrt.Settle()
+				if !pingRet {
+					vrt.Failf("c11/still-blocked:rc-ping:"+how+":response-timeout-set", "Ping on the retrying client (ResponseTimeout 30 s) has not returned 2 s after its context ended (%s)", how)
+				} else if ce := pctx.Err(); perr == nil || !errors.Is(perr, ce) {
+					vrt.Failf("c11/not-context-error:rc-ping:"+how, "Ping returned %v, want an error wrapping %v", perr, ce)
+				}
+				rc.Disconnect(bg)
+				vrt.Quiesce()
+			},
+			Observe: func() uint64 { return net.TraceHash() },
+		}
+		c.Explore(sc)
+	}
+}
+
 func c11PingPending(c *Ctx) {
 	c.Bound("rc-ping-pending", "ReconnectClient: Ping outstanding (the broker never answers PINGREQ) while Publish / Subscribe / Unsubscribe / Disconnect are called with a 1 s deadline; P<=1")
 	for _, op := range []string{"publish", "subscribe", "unsubscribe", "disconnect"} {
